@@ -540,3 +540,354 @@ Proof.
   unfold sort_posts. destruct (forallb (keys_ok ks) l); [|discriminate].
   intros H. injection H as <-. split; [apply isort_perm|]. apply Permutation_map, isort_perm.
 Qed.
+
+(* ====================================================================================== *)
+(* 3. truncate_xacts keeps the first / last N transactions of the stream                  *)
+(* ====================================================================================== *)
+
+Section TruncSpec.
+  Context {A : Type}.
+  Variable xact : A -> Z.
+
+  (* the transactions of a stream: maximal blocks of consecutive items of one transaction *)
+  Fixpoint xruns (l : list A) : list (list A) :=
+    match l with
+    | [] => []
+    | p :: l' =>
+        match l' with
+        | [] => [[p]]
+        | q :: _ =>
+            if xact p =? xact q
+            then match xruns l' with
+                 | r :: rs => (p :: r) :: rs
+                 | [] => [[p]]
+                 end
+            else [p] :: xruns l'
+        end
+    end.
+
+  Lemma xruns_cons2 p q l :
+    xruns (p :: q :: l) =
+    if xact p =? xact q
+    then match xruns (q :: l) with r :: rs => (p :: r) :: rs | [] => [[p]] end
+    else [p] :: xruns (q :: l).
+  Proof. reflexivity. Qed.
+
+  Lemma xruns_nonnil p l : xruns (p :: l) <> [].
+  Proof.
+    destruct l as [|q l]; [discriminate|]. rewrite xruns_cons2.
+    destruct (xact p =? xact q); [|discriminate].
+    destruct (xruns (q :: l)); discriminate.
+  Qed.
+
+  Lemma xruns_concat l : concat (xruns l) = l.
+  Proof.
+    induction l as [|p l IH]; [reflexivity|].
+    destruct l as [|q l]; [reflexivity|]. rewrite xruns_cons2.
+    destruct (xact p =? xact q).
+    - destruct (xruns (q :: l)) as [|r rs] eqn:E; [now apply xruns_nonnil in E|].
+      cbn [concat app] in *. now rewrite IH.
+    - cbn [concat app]. now rewrite IH.
+  Qed.
+
+  (* run k of `rs` gets index k0 + k *)
+  Fixpoint tag (k : Z) (rs : list (list A)) : list (A * Z) :=
+    match rs with
+    | [] => []
+    | r :: rs' => map (fun p => (p, k)) r ++ tag (k + 1) rs'
+    end.
+
+  (* the runs whose index satisfies f *)
+  Fixpoint select (f : Z -> bool) (k : Z) (rs : list (list A)) : list A :=
+    match rs with
+    | [] => []
+    | r :: rs' => (if f k then r else []) ++ select f (k + 1) rs'
+    end.
+
+  Lemma select_tag f k rs :
+    map fst (filter (fun pj => f (snd pj)) (tag k rs)) = select f k rs.
+  Proof.
+    revert k. induction rs as [|r rs IH]; intros k; [reflexivity|].
+    cbn [tag select]. rewrite filter_app, map_app, IH. f_equal.
+    induction r as [|p r IHr]; cbn [map filter snd]; [now destruct (f k)|].
+    destruct (f k) eqn:E; cbn [map fst]; [now rewrite IHr|exact IHr].
+  Qed.
+
+  Lemma select_ext f g k rs :
+    (forall i, k <= i -> f i = g i) -> select f k rs = select g k rs.
+  Proof.
+    revert k. induction rs as [|r rs IH]; intros k H; [reflexivity|].
+    cbn [select]. rewrite (H k) by lia. f_equal. apply IH. intros i Hi. apply H. lia.
+  Qed.
+
+  Lemma select_all f k rs : (forall i, k <= i -> f i = true) -> select f k rs = concat rs.
+  Proof.
+    revert k. induction rs as [|r rs IH]; intros k H; [reflexivity|].
+    cbn [select concat]. rewrite (H k) by lia. f_equal. apply IH. intros i Hi. apply H. lia.
+  Qed.
+
+  Lemma select_none f k rs : (forall i, k <= i -> f i = false) -> select f k rs = [].
+  Proof.
+    revert k. induction rs as [|r rs IH]; intros k H; [reflexivity|].
+    cbn [select]. rewrite (H k) by lia. cbn [app]. apply IH. intros i Hi. apply H. lia.
+  Qed.
+
+  Lemma select_firstn n k rs :
+    select (fun i => i <? n) k rs = concat (firstn (Z.to_nat (n - k)) rs).
+  Proof.
+    revert k. induction rs as [|r rs IH]; intros k; [now rewrite firstn_nil|].
+    cbn [select]. destruct (k <? n) eqn:E.
+    - apply Z.ltb_lt in E. replace (Z.to_nat (n - k)) with (S (Z.to_nat (n - (k + 1)))) by lia.
+      cbn [firstn concat]. now rewrite IH.
+    - apply Z.ltb_ge in E. replace (Z.to_nat (n - k)) with 0%nat by lia.
+      cbn [firstn concat app]. apply select_none. intros i Hi. apply Z.ltb_ge. lia.
+  Qed.
+
+  Lemma select_skipn n k rs :
+    select (fun i => n <=? i) k rs = concat (skipn (Z.to_nat (n - k)) rs).
+  Proof.
+    revert k. induction rs as [|r rs IH]; intros k; [now rewrite skipn_nil|].
+    cbn [select]. destruct (n <=? k) eqn:E.
+    - apply Z.leb_le in E. replace (Z.to_nat (n - k)) with 0%nat by lia.
+      cbn [skipn concat]. f_equal. apply select_all. intros i Hi. apply Z.leb_le. lia.
+    - apply Z.leb_gt in E. replace (Z.to_nat (n - k)) with (S (Z.to_nat (n - (k + 1)))) by lia.
+      cbn [skipn app]. apply IH.
+  Qed.
+
+  (* the transaction index truncate_xacts::flush assigns to each stored item *)
+  Fixpoint labels (x : Z) (i : Z) (l : list A) : list Z :=
+    match l with
+    | [] => []
+    | p :: l' => let i' := if xact p =? x then i else i + 1 in i' :: labels (xact p) i' l'
+    end.
+
+  Lemma labels_cons x i p l :
+    labels x i (p :: l) =
+    (if xact p =? x then i else i + 1) :: labels (xact p) (if xact p =? x then i else i + 1) l.
+  Proof. reflexivity. Qed.
+
+  Lemma labels_tag x i p l :
+    combine (p :: l) (labels x i (p :: l)) = tag (if xact p =? x then i else i + 1) (xruns (p :: l)).
+  Proof.
+    revert x i p. induction l as [|q l IH]; intros x i p.
+    - cbn. reflexivity.
+    - rewrite labels_cons. set (i' := if xact p =? x then i else i + 1).
+      change (combine (p :: q :: l) (i' :: labels (xact p) i' (q :: l)))
+        with ((p, i') :: combine (q :: l) (labels (xact p) i' (q :: l))).
+      rewrite IH. rewrite xruns_cons2. rewrite (Z.eqb_sym (xact q) (xact p)).
+      destruct (xact p =? xact q).
+      + destruct (xruns (q :: l)) as [|r rs] eqn:E; [now apply xruns_nonnil in E|].
+        reflexivity.
+      + reflexivity.
+  Qed.
+
+  Lemma count_changes_cons x p l :
+    count_changes xact x (p :: l) = (if xact p =? x then 0 else 1) + count_changes xact (xact p) l.
+  Proof. reflexivity. Qed.
+
+  Lemma count_changes_runs x p l :
+    count_changes xact x (p :: l) + (if xact p =? x then 1 else 0) = Z.of_nat (length (xruns (p :: l))).
+  Proof.
+    revert x p. induction l as [|q l IH]; intros x p.
+    - cbn. destruct (xact p =? x); reflexivity.
+    - rewrite count_changes_cons. pose proof (IH (xact p) q) as H. rewrite xruns_cons2.
+      rewrite (Z.eqb_sym (xact q) (xact p)) in H.
+      destruct (xact p =? xact q).
+      + destruct (xruns (q :: l)) as [|r rs] eqn:E; [now apply xruns_nonnil in E|].
+        cbn [length] in *. destruct (xact p =? x); lia.
+      + cbn [length]. destruct (xact p =? x); lia.
+  Qed.
+
+  Variables head tail : Z.
+
+  Lemma trunc_emit_labels L x i ps :
+    trunc_emit xact head tail L x i ps =
+    map fst (filter (fun pj => trunc_print head tail L (snd pj)) (combine ps (labels x i ps))).
+  Proof.
+    revert x i. induction ps as [|p ps IH]; intros x i; [reflexivity|].
+    cbn [trunc_emit labels combine filter snd].
+    destruct (trunc_print head tail L (if xact p =? x then i else i + 1)); cbn [map fst]; now rewrite IH.
+  Qed.
+
+  (* flush(): the runs whose index passes the head/tail test *)
+  Lemma trunc_flush_select l :
+    trunc_flush xact head tail l =
+    select (trunc_print head tail (Z.of_nat (length (xruns l)))) 0 (xruns l).
+  Proof.
+    destruct l as [|p l]; [reflexivity|].
+    unfold trunc_flush. rewrite trunc_emit_labels, labels_tag, Z.eqb_refl.
+    pose proof (count_changes_runs (xact p) p l) as H. rewrite Z.eqb_refl in H. rewrite H.
+    apply select_tag.
+  Qed.
+
+  (* the shortcut of operator() (stop storing once head_count transactions were seen, when
+     only --head is given) does not change what flush() prints *)
+  Definition hot : bool := (tail =? 0) && (0 <? head).
+
+  Lemma trunc_store_cold last seen l : hot = false -> trunc_store xact head tail last seen l = l.
+  Proof.
+    unfold hot. intros H. revert last seen. induction l as [|p l IH]; intros last seen; [reflexivity|].
+    cbn [trunc_store]. rewrite H. cbn [andb]. now rewrite IH.
+  Qed.
+
+  Lemma hot_print L i : hot = true -> trunc_print head tail L i = (i <? head).
+  Proof.
+    unfold hot, trunc_print. intros H. apply andb_true_iff in H. destruct H as [Ht Hh].
+    rewrite Ht, Hh. apply Z.ltb_lt in Hh. replace (head =? 0) with false by (symmetry; apply Z.eqb_neq; lia).
+    now rewrite orb_false_r.
+  Qed.
+
+  Lemma trunc_emit_past L x i ps : hot = true -> head <= i -> trunc_emit xact head tail L x i ps = [].
+  Proof.
+    intros H. revert x i. induction ps as [|p ps IH]; intros x i Hi; [reflexivity|].
+    cbn [trunc_emit]. rewrite (hot_print _ _ H).
+    replace ((if xact p =? x then i else i + 1) <? head) with false
+      by (symmetry; apply Z.ltb_ge; destruct (xact p =? x); lia).
+    apply IH. destruct (xact p =? x); lia.
+  Qed.
+
+  Lemma trunc_store_hot x i p ps : hot = true ->
+    trunc_store xact head tail (Some x) i (p :: ps) =
+    let i' := if xact p =? x then i else i + 1 in
+    if head <=? i' then [] else p :: trunc_store xact head tail (Some (xact p)) i' ps.
+  Proof.
+    unfold hot. intros H. apply andb_true_iff in H. destruct H as [Ht Hh].
+    cbn [trunc_store]. now rewrite Ht, Hh.
+  Qed.
+
+  Lemma trunc_emit_cons L x i p ps :
+    trunc_emit xact head tail L x i (p :: ps) =
+    let i' := if xact p =? x then i else i + 1 in
+    if trunc_print head tail L i' then p :: trunc_emit xact head tail L (xact p) i' ps
+    else trunc_emit xact head tail L (xact p) i' ps.
+  Proof. reflexivity. Qed.
+
+  Lemma trunc_emit_store L L' x i ps : hot = true ->
+    trunc_emit xact head tail L' x i (trunc_store xact head tail (Some x) i ps) =
+    trunc_emit xact head tail L x i ps.
+  Proof.
+    intros H. revert x i. induction ps as [|p ps IH]; intros x i; [reflexivity|].
+    rewrite (trunc_store_hot _ _ _ _ H), trunc_emit_cons. cbv zeta.
+    set (i' := if xact p =? x then i else i + 1).
+    rewrite (hot_print L i' H).
+    destruct (head <=? i') eqn:E.
+    - apply Z.leb_le in E. replace (i' <? head) with false by (symmetry; apply Z.ltb_ge; lia).
+      cbn [trunc_emit]. symmetry. now apply trunc_emit_past.
+    - apply Z.leb_gt in E. replace (i' <? head) with true by (symmetry; apply Z.ltb_lt; lia).
+      rewrite trunc_emit_cons. cbv zeta. fold i'. rewrite (hot_print L' i' H).
+      replace (i' <? head) with true by (symmetry; apply Z.ltb_lt; lia).
+      f_equal. apply IH.
+  Qed.
+
+  Lemma truncate_flush l : truncate xact head tail l = trunc_flush xact head tail l.
+  Proof.
+    unfold truncate. destruct hot eqn:H; [|now rewrite trunc_store_cold].
+    destruct l as [|p l]; [reflexivity|].
+    cbn [trunc_store]. pose proof H as H'. unfold hot in H'. apply andb_true_iff in H'.
+    destruct H' as [Ht Hh]. rewrite Ht, Hh. cbn [andb].
+    apply Z.ltb_lt in Hh. replace (head <=? 0) with false by (symmetry; apply Z.leb_gt; lia).
+    unfold trunc_flush. cbn [trunc_emit]. rewrite Z.eqb_refl, !(hot_print _ _ H).
+    replace (0 <? head) with true by (symmetry; apply Z.ltb_lt; lia).
+    f_equal. now apply trunc_emit_store.
+  Qed.
+
+  (* every integer head/tail count: the kept transactions are those whose index i satisfies
+     the test of flush() *)
+  Theorem truncate_select l :
+    truncate xact head tail l =
+    select (trunc_print head tail (Z.of_nat (length (xruns l)))) 0 (xruns l).
+  Proof. rewrite truncate_flush. apply trunc_flush_select. Qed.
+End TruncSpec.
+
+(* --head n alone: the first n transactions; nothing for n = 0; everything beyond the count *)
+Theorem head_spec {A} (xact : A -> Z) n l : 0 <= n ->
+  truncate xact n 0 l = concat (firstn (Z.to_nat n) (xruns xact l)).
+Proof.
+  intros Hn. rewrite truncate_select.
+  rewrite (select_ext _ (fun i => i <? n) 0).
+  - rewrite select_firstn. now rewrite Z.sub_0_r.
+  - intros i Hi. unfold trunc_print. cbn [Z.eqb orb]. rewrite orb_false_r.
+    destruct (n =? 0) eqn:E.
+    + apply Z.eqb_eq in E. subst. symmetry. apply Z.ltb_ge. lia.
+    + apply Z.eqb_neq in E. replace (0 <? n) with true by (symmetry; apply Z.ltb_lt; lia). reflexivity.
+Qed.
+
+(* --tail n alone: the last n transactions *)
+Theorem tail_spec {A} (xact : A -> Z) n l : 0 <= n ->
+  truncate xact 0 n l =
+  concat (skipn (length (xruns xact l) - Z.to_nat n) (xruns xact l)).
+Proof.
+  intros Hn. rewrite truncate_select. set (L := Z.of_nat (length (xruns xact l))).
+  destruct (n =? 0) eqn:E.
+  - apply Z.eqb_eq in E. subst n. rewrite select_none.
+    + change (Z.to_nat 0) with 0%nat. rewrite Nat.sub_0_r, skipn_all. reflexivity.
+    + intros i _. reflexivity.
+  - apply Z.eqb_neq in E. rewrite (select_ext _ (fun i => L - n <=? i) 0).
+    + rewrite select_skipn. f_equal. f_equal. lia.
+    + intros i Hi. unfold trunc_print. cbn [Z.eqb orb].
+      replace (n =? 0) with false by (symmetry; apply Z.eqb_neq; lia).
+      replace (0 <? n) with true by (symmetry; apply Z.ltb_lt; lia).
+      destruct (L - i <=? n) eqn:F; symmetry.
+      * apply Z.leb_le in F. apply Z.leb_le. lia.
+      * apply Z.leb_gt in F. apply Z.leb_gt. lia.
+Qed.
+
+(* both: transaction i of L is kept iff i < head or i >= L - tail *)
+Theorem head_tail_both_spec {A} (xact : A -> Z) h t l : 0 < h -> 0 < t ->
+  truncate xact h t l =
+  select (fun i => (i <? h) || (Z.of_nat (length (xruns xact l)) - t <=? i)) 0 (xruns xact l).
+Proof.
+  intros Hh Ht. rewrite truncate_select. apply select_ext. intros i Hi. unfold trunc_print.
+  replace (h =? 0) with false by (symmetry; apply Z.eqb_neq; lia).
+  replace (t =? 0) with false by (symmetry; apply Z.eqb_neq; lia).
+  replace (0 <? h) with true by (symmetry; apply Z.ltb_lt; lia).
+  replace (0 <? t) with true by (symmetry; apply Z.ltb_lt; lia).
+  f_equal. set (L := Z.of_nat (length (xruns xact l))).
+  destruct (L - i <=? t) eqn:F; symmetry.
+  - apply Z.leb_le in F. apply Z.leb_le. lia.
+  - apply Z.leb_gt in F. apply Z.leb_gt. lia.
+Qed.
+
+(* negative counts, as coded: --head -n drops the first n, --tail -n drops the last n *)
+Theorem head_negative_spec {A} (xact : A -> Z) n l : 0 < n ->
+  truncate xact (- n) 0 l = concat (skipn (Z.to_nat n) (xruns xact l)).
+Proof.
+  intros Hn. rewrite truncate_select. rewrite (select_ext _ (fun i => n <=? i) 0).
+  - rewrite select_skipn. now rewrite Z.sub_0_r.
+  - intros i Hi. unfold trunc_print. cbn [Z.eqb orb]. rewrite orb_false_r.
+    replace (- n =? 0) with false by (symmetry; apply Z.eqb_neq; lia).
+    replace (0 <? - n) with false by (symmetry; apply Z.ltb_ge; lia).
+    now rewrite Z.opp_involutive.
+Qed.
+
+Theorem tail_negative_spec {A} (xact : A -> Z) n l : 0 < n ->
+  truncate xact 0 (- n) l =
+  concat (firstn (length (xruns xact l) - Z.to_nat n) (xruns xact l)).
+Proof.
+  intros Hn. rewrite truncate_select. set (L := Z.of_nat (length (xruns xact l))).
+  rewrite (select_ext _ (fun i => i <? L - n) 0).
+  - rewrite select_firstn. f_equal. f_equal. lia.
+  - intros i Hi. unfold trunc_print. cbn [Z.eqb orb].
+    replace (- n =? 0) with false by (symmetry; apply Z.eqb_neq; lia).
+    replace (0 <? - n) with false by (symmetry; apply Z.ltb_ge; lia).
+    rewrite Z.opp_involutive.
+    destruct (n <? L - i) eqn:F; symmetry.
+    + apply Z.ltb_lt in F. apply Z.ltb_lt. lia.
+    + apply Z.ltb_ge in F. apply Z.ltb_ge. lia.
+Qed.
+
+Corollary head_zero {A} (xact : A -> Z) l : truncate xact 0 0 l = [].
+Proof. rewrite head_spec by lia. reflexivity. Qed.
+
+Corollary head_beyond {A} (xact : A -> Z) n l :
+  Z.of_nat (length (xruns xact l)) <= n -> truncate xact n 0 l = l.
+Proof.
+  intros H. rewrite head_spec by lia. rewrite firstn_all2 by lia. apply xruns_concat.
+Qed.
+
+Corollary tail_beyond {A} (xact : A -> Z) n l :
+  Z.of_nat (length (xruns xact l)) <= n -> truncate xact 0 n l = l.
+Proof.
+  intros H. rewrite tail_spec by lia.
+  replace (length (xruns xact l) - Z.to_nat n)%nat with 0%nat by lia. apply xruns_concat.
+Qed.
